@@ -131,6 +131,39 @@ func runCheckActIn(c *Ctx, pkgs map[string]bool, doSplit bool) {
 				return sp
 			}
 			n := 0
+			// (A1) conditions that read field F directly and dominate a write to F: the write must share a critical section with
+			// at least one of them (a re-test in the write's own section is what makes the decision atomic)
+			for _, w := range accs {
+				if !w.write {
+					continue
+				}
+				var conds []access
+				for _, rd := range accs {
+					if rd.write || rd.field != w.field || rd.base != w.base || rd.ref == w.ref {
+						continue
+					}
+					if _, _, _, isCond := CondEdges(rd.ref.B); !isCond || rd.ref.I != len(rd.ref.B.Nodes)-1 {
+						continue
+					}
+					if cfg.Dominates(rd.ref, w.ref) {
+						conds = append(conds, rd)
+					}
+				}
+				if len(conds) == 0 {
+					continue
+				}
+				n++
+				key := fmt.Sprintf("atomic/%s.%s/%s#%d", owner[w.field], w.field.Name(), f.Name, n)
+				ok := false
+				for _, rd := range conds {
+					if held, _ := Held(ls, f, rd.ref, rd.base+"."+fields[rd.field]); held && specFor(rd).Passed(f, w.ref, "tested") {
+						ok = true
+					}
+				}
+				c.Check(ok, key, w.pos, fmt.Sprintf("a test of %s.%s and the write it guards are one critical section", w.base, w.field.Name()),
+					fmt.Sprintf("%s.%s is tested in the condition at %s and written here after the lock was released in between, with no re-test in the write's own critical section: two concurrent callers can both pass the test (limit exceeded / duplicate admitted)", w.base, w.field.Name(), p.Pos(conds[0].pos)))
+			}
+			// (A2) any write that follows reads of the object's guarded state is decided on a read made in its own critical section
 			for _, w := range accs {
 				if !w.write {
 					continue
